@@ -37,6 +37,8 @@ sb = H.stateless_block
 BLOCKS = {
     "request": H.REQ_POST, "response": H.RESP, "info": H.INFO, "trailers": H.TRAILERS,
     "invalid": [(b":status", b"200"), (b"Upper", b"x")],
+    # a field name that is not UTF-8 (matters under header_encoding): request-shaped and response-shaped
+    "badname-req": H.REQ_POST + [(b"x-caf\xe9", b"v")], "badname-resp": H.RESP + [(b"x-caf\xe9", b"v")],
 }
 SERVER_EVENTS = {"RequestReceived", "DataReceived", "TrailersReceived", "StreamEnded", "StreamReset", "PriorityUpdated",
                  "WindowUpdated"}
@@ -161,7 +163,8 @@ class S:
     pass
 
 
-CONFIGS = {"default": {}, "novalidate": {"validate_inbound_headers": False, "normalize_inbound_headers": False}}
+CONFIGS = {"default": {}, "novalidate": {"validate_inbound_headers": False, "normalize_inbound_headers": False},
+           "utf8": {"header_encoding": "utf-8"}}
 
 
 class Spec:
@@ -203,6 +206,8 @@ class Spec:
         acts = ["rx:" + k for k in sorted(self.frames)]
         if self.client:
             acts += ["l:req:1", "l:req:1:es", "l:req:3:es", "l:reqbad:1", "l:reqbad:3"]
+        else:
+            acts += ["l:reqlike:2"]           # a server application tries to open stream 2 with a request-shaped block
         acts += ["l:rst:1", "l:rst:2", "cleanup"]
         return acts
 
@@ -220,6 +225,11 @@ class Spec:
             return Step("cleanup")
         parts = lab.split(":")
         if parts[0] == "l":
+            if parts[1] == "reqlike":
+                o = h.api("send_headers", int(parts[2]), H.ni(H.REQ_POST))
+                if o.kind == "ok":
+                    bad("refusal-expected", "a server's send_headers(%s, <request block>) on a stream nobody opened succeeded" % parts[2])
+                return Step("l-refused-arg", viols)
             if parts[1] == "reqbad":
                 # a request the library must refuse for an argument (the stream would depend on itself): the stream is not opened
                 sid = int(parts[2])
@@ -236,6 +246,11 @@ class Spec:
                 return Step("l-refused", viols, prune=True)
             return Step("l-ok", viols)
         o = h.rx(self.frames[lab[3:]])
+        if o.kind == "raise" and not o.is_proto:
+            # not a connection error (C17 reports the exception itself): the connection goes on, and so does the monitor -
+            # whatever the stream reports next is judged against what it has reported so far
+            h.m.closed = False
+            return Step("rx-other-exception", viols)
         if o.kind == "raise":
             st.dead = True
             return Step("rx-conn-error", viols, prune=True)
